@@ -841,6 +841,16 @@ def variable_player_set():
 
     def wrote_to(I, entry, var, value):
         evs = events_named(I, "player_write")
+        if len(evs) == 0:
+            # nothing is written exactly when the entry names a player the game does not have
+            game = I.force(I.read_field(I.force(I.read_field(I.frames[0].env["self"].ref, "machine")).ref, "game")).ref
+            nplayers = len(I.container(I.force(I.read_field(game, "player_list")).ref).items)
+            pn = I.force(I.getitem(I.force(entry), VStr("player")))
+            out = []
+            for g_, alt in (pn.alts if isinstance(pn, VUnion) else ((z3.BoolVal(True), pn),)):
+                if alt.tag != "none":
+                    out.append(z3.And(g_, alt.t > nplayers))
+            return VBool(z3.Or(out + [z3.BoolVal(False)]))
         if len(evs) != 1:
             return VBool(False)
         e = evs[0]
@@ -860,7 +870,6 @@ def variable_player_set():
             sub = [z3.And(n == 0, z3.BoolVal(e.args["player"] is cur))]
             for i, p_ in enumerate(plist):
                 sub.append(z3.And(n == i + 1, z3.BoolVal(e.args["player"] is p_)))
-            sub.append(z3.And(n > len(plist), z3.BoolVal(e.args["player"] is cur)))
             cases.append(z3.And(g_, z3.Or(sub)))
         return VBool(z3.And(z3.BoolVal(bool(kind_ok)), I.eq(e.args["var"], var), I.eq(e.args["value"], value), z3.Or(cases)))
     C.helpers["wrote_to_addressed_player"] = wrote_to
@@ -873,7 +882,8 @@ def variable_player_set():
                    ("player numbers are not negative", "entry['player'] is None or entry['player'] >= 0")],
          ensures=[("VP1: exactly one write, of the evaluated value, to the variable of the ADDRESSED player: player N "
                    "(counted from 1, player 1 included) when the game has that many players - whoever is up - and the "
-                   "current player when no player is named (or the named one does not exist)",
+                   "current player when no player is named; an entry for a player the game does not have writes NOTHING "
+                   "(it must not change the current player's variables instead)",
                    "wrote_to_addressed_player(entry, var, entry['int'].value)")],
          modifies=[], raises={},
          bounded="BOUNDED: games of at most %d players; int-valued entries with action add / set" % NP)
